@@ -3,6 +3,8 @@
 Strings are written `~text`.  A derived Sequence object is shown as `~text nopar` or
 `~text par <parent.strand|N> <parent.location|N>`.
 """
+import zlib
+
 from harness.common import exc_token
 
 import inscripta.biocantor  # noqa
@@ -35,7 +37,28 @@ def parse_str(tk):
     return s[1:]
 
 
+WARM = False   # set per line by impl_seq_op
+
+
+def warm(loc):
+    """Look at the location the way a caller who inspected it first would: fills every lazily cached attribute
+    (`_sequence`, `_single_interval_store`, `_is_overlapping`, cached parents' strand property)."""
+    for f in (lambda: loc.extract_sequence(), lambda: loc.blocks, lambda: [b.extract_sequence() for b in loc.blocks],
+              lambda: loc.is_overlapping, lambda: len(loc), lambda: loc.parent.strand if loc.parent else None,
+              lambda: str(loc), lambda: hash(loc)):
+        try:
+            f()
+        except Exception:  # noqa  (e.g. unstranded / empty locations have no sequence)
+            pass
+    return loc
+
+
 def parse_loc_on(tk, parent):
+    loc = _parse_loc_on(tk, parent)
+    return warm(loc) if WARM else loc
+
+
+def _parse_loc_on(tk, parent):
     kind = tk.next()
     if kind == "E":
         return EmptyLocation()
@@ -75,6 +98,8 @@ def parse_prog(tk):
 
 def run_prog(x, prog):
     for st in prog:
+        if WARM and x.parent is not None and x.parent.location is not None:
+            warm(x.parent.location)
         if st[0] == "sl":
             x = x[slice(st[1], st[2], st[3])]
         elif st[0] == "ix":
@@ -101,7 +126,28 @@ def obj_of(alphabet, parent, tk):
     return run_prog(x0, prog)
 
 
+def xform(loc, parent, tk):
+    t = tk.next()
+    if t == "rs":
+        return loc.reset_strand(tk.strand())
+    if t == "rev2":
+        mid = loc.reverse_strand()
+        if WARM:
+            warm(mid)
+        return mid.reverse_strand()
+    if t == "rp":
+        return loc.reset_parent(parent)
+    if t == "opt":
+        return loc.optimize_blocks()
+    if t == "sh0":
+        return loc.shift_position(0)
+    raise KeyError(t)
+
+
 def impl_seq_op(line):
+    global WARM
+    # a deterministic half of the lines runs with every operand's lazily cached state filled beforehand
+    WARM = bool(zlib.crc32(line.encode()) & 1)
     tk = Toks([x for x in line.split(" ") if x != ""])
     op = tk.next()
 
@@ -109,6 +155,13 @@ def impl_seq_op(line):
         alphabet = Alphabet[tk.next()]
         ptext = parse_str(tk)
         parent = Parent(id="chr", sequence=Sequence(ptext, alphabet))
+        if op == "xform":
+            loc = parse_loc_on(tk, parent)
+            res = xform(loc, parent, tk)
+            if type(res) is CompoundInterval:
+                _ = res.blocks
+            sq = guarded_seq(lambda: f"~{res.extract_sequence()}")
+            return f"ok {show_loc(res)} ; {sq}"
         if op == "extract":
             return f"ok ~{parse_loc_on(tk, parent).extract_sequence()}"
         if op == "revstrand":
